@@ -313,3 +313,23 @@ def constants_lint(ctx, rule, names, why):
                   f"constants.{n} = {v!r}; reference {ref!r} {unit} (relative difference "
                   f"{abs(float(v) - ref) / abs(ref):.2g})" if isinstance(v, (int, float)) else f"constants.{n} = {v!r}",
                   "periodictable/constants.py " + n, sample={"value": v, "reference": ref})
+
+
+def array_hazard_sweep(ctx, rule, modules, what):
+    """No function of the given modules updates in place, keeps, or hands to a helper that does, an array its caller
+    supplied (parameters named wavelength / energy / Q / ... and whatever local names alias them).  Pure syntax: runs before
+    anything is interpreted, so that it stands even if a later part of the analysis cannot follow the code."""
+    import ast as _ast
+    from ptstat.taint import caller_array_hazards
+    nfun = 0
+    by_module = {}
+    for qual, fn in ctx.src.funcs.items():
+        if fn.module in modules and isinstance(fn.node, _ast.FunctionDef):
+            by_module.setdefault(fn.module, {})[fn.node.name] = fn.node
+    for qual, fn in ctx.src.funcs.items():
+        if fn.module in modules and isinstance(fn.node, _ast.FunctionDef):
+            nfun += 1
+            for why, node in caller_array_hazards(fn.node, module_funcs=by_module.get(fn.module)):
+                ctx.fail(rule, f"{qual}: {why}", f"{_ast.unparse(node)[:80]}: {what}", f"{ctx.src.where(fn.module, node)} {qual}")
+    ctx.ok(rule, f"no function of {', '.join(sorted(modules))} updates a caller-supplied array in place or keeps a reference to it",
+           site=", ".join(f"periodictable/{m}.py" for m in sorted(modules)), sample={"functions": nfun})
